@@ -86,6 +86,9 @@ CHECKS["C06"] = table("C06", "TblHmac.tla models a credential as <<prefix, key, 
 CHECKS["C10"] = table("C10", "TblClientAuth.tla transcribes client authentication (registration kind/method/public/rotated secrets x transport x secret relation x known id x endpoint -> authentication verdict and endpoint outcome); TLC enumerates all 5040 rows; each is executed with real bcrypt-hashed secrets at the token (client_credentials, password, refresh_token), revocation, PAR and device-authorization endpoints; on a rejected authentication the storage write log must be empty and the presented refresh token still active.", "DESIGN.md 6 C10")
 CHECKS["C13"] = table("C13", "TblAuthz.tla transcribes the authorization-request validation pipeline and response placement (registered response-type sets, response modes, grant types x response_type list with order and duplicates x response_mode x state/nonce length x openid x redirect_uri); the safety clauses of the statement are ASSUMEd of the specification on the whole domain (70200 rows); rows (all at thorough, a seeded 16000 at quick) are driven through NewAuthorizeRequest/NewAuthorizeResponse/Write*, and verdict, issued artefacts, placement (query/fragment/form), 'no token in the query' and state echo are compared.", "DESIGN.md 6 C13")
 
+CHECKS["C14"] = table("C14", "TblIDToken.tla states, per OpenID flow (code, implicit x2, hybrid x2, refresh, device), when an ID Token is issued (openid granted, non-empty subject, pre-set expiry not in the past) and what it is bound to (algorithm of the signing key, at_hash / c_hash presence and hash size, nonce, aud, sub, iss, exp window), and the max_age / prompt / id_token_hint conditions as a function of auth_time - requested_at; every row is executed end to end with real RSA / P-256 / P-384 / P-521 keys and the token is parsed and verified with the public key; hashes are recomputed with the standard library.", "DESIGN.md 6 C14")
+CHECKS["C15"] = table("C15", "TblAssertion.tla: every private_key_jwt client assertion and every JWT-bearer grant in which at most 2 (thorough 3) fields deviate from the all-right assertion (method, registered/other algorithm incl. none and HS256, kid, signing key, iss, sub, aud incl. list forms, exp incl. wrong type, nbf, iat, jti, optional-claim switches, scope) with the expected accept/refuse; each is signed for real and presented, an accepted one is presented a second time and must be refused. Concurrency: Steps.tla/MCSteps.tla (ScnJti) explore every interleaving of the storage steps of two and three simultaneous presentations of one assertion and check JtiAtMostOnce; the schedules (sampled at quick, all at thorough) are forced on real goroutines and validated step by step.", "DESIGN.md 6 C15")
+
 NOT_YET = "check not built yet in this session (planned, see DESIGN.md section 10); nothing is claimed"
 
 def main():
